@@ -198,6 +198,7 @@ func TestC18Demo_TimeComparisonOutsideTheWhereClause(t *testing.T) {
 	for _, q := range []string{
 		"SELECT host AS r FROM cpu WHERE host <> '' -- AND time >= '2024-03-16T00:00:00Z' AND time < '2024-03-17T00:00:00Z'\nORDER BY r",
 		"SELECT host AS r FROM cpu WHERE host <> '' /* AND time >= '2024-03-16T00:00:00Z' AND time < '2024-03-17T00:00:00Z' */ ORDER BY r",
+		"SELECT host AS r FROM cpu WHERE host <> $$time < '2024-03-12T00:00:00Z'$$ AND time >= '2024-03-01T00:00:00Z' ORDER BY r",
 		"SELECT CAST(count(*) FILTER (WHERE time >= '2024-03-16T00:00:00Z' AND time < '2024-03-17T00:00:00Z') AS VARCHAR) || '/' || CAST(count(*) AS VARCHAR) AS r FROM cpu",
 		"SELECT host || ':' || coalesce(lag(host) OVER (ORDER BY time), '-') AS r FROM cpu WHERE host <> '' QUALIFY time >= '2024-03-16T00:00:00Z' AND time < '2024-03-17T00:00:00Z' ORDER BY r",
 	} {
